@@ -226,6 +226,11 @@ class Evaluator:
         if isinstance(fn, ast.Attribute):
             recv = self.ev(fn.value, env)
             m = fn.attr
+            if isinstance(recv, Obj):
+                target = recv.get(self, m)
+                if callable(target):
+                    return target(*args, **kw)
+                raise Unsupported("attribute %s of a record is not callable" % m)
             if isinstance(recv, str) and m in STR_METHODS:
                 try:
                     return getattr(recv, m)(*args, **kw)
@@ -249,6 +254,8 @@ class Evaluator:
                 return getattr(recv, m)(*args)
             if recv is None:
                 raise PyRaise("AttributeError", "None.%s" % m)
+            if isinstance(recv, (str, int)) and m in ("match", "search"):
+                raise PyRaise("AttributeError", "%s.%s" % (type(recv).__name__, m))
             raise Unsupported("method %s on %s" % (m, type(recv).__name__))
         raise Unsupported("call form")
 
@@ -348,6 +355,25 @@ class Evaluator:
         elif isinstance(s, ast.Assert):
             if not self.ev(s.test, env):
                 raise PyRaise("AssertionError")
+        elif isinstance(s, ast.Try) and not s.finalbody:
+            try:
+                self.block(s.body, env)
+            except PyRaise as err:
+                for h in s.handlers:
+                    names = []
+                    if h.type is None:
+                        names = ["BaseException"]
+                    elif isinstance(h.type, ast.Tuple):
+                        names = [getattr(e, "id", getattr(e, "attr", "?")) for e in h.type.elts]
+                    else:
+                        names = [getattr(h.type, "id", getattr(h.type, "attr", "?"))]
+                    if err.exc_type in names or "Exception" in names or "BaseException" in names:
+                        self.block(h.body, env)
+                        break
+                else:
+                    raise
+            else:
+                self.block(s.orelse, env)
         else:
             raise Unsupported("statement %s" % type(s).__name__)
 
